@@ -174,6 +174,74 @@ func renderAppend(e *Env, v ssa.Value) string {
 
 // marshalledObject: for SaveKeyValue(key, v) / append(args, v): the object that was marshalled into v. A value merged
 // from "nil (delete)" and "Marshal(obj)" (single write at the end of a saver) is the marshalled obj.
+// metadataTakenOver: before obj (an entry read from the destination) is handed on, its TokenMetaData field is assigned the
+// TokenMetaData of an entry that was decoded from the message or read from the sender — in the function that holds obj, by a
+// store that dominates every use of obj as a call argument after it.
+func metadataTakenOver(e *Env, obj ssa.Value, snd string) (string, bool) {
+	for par, ok := obj.(*ssa.Parameter); ok; par, ok = obj.(*ssa.Parameter) {
+		a, pe := e.actual(par)
+		if a == nil {
+			return "", false
+		}
+		obj, e = a, pe
+	}
+	in, ok := obj.(ssa.Instruction)
+	if !ok || obj.Referrers() == nil {
+		return "", false
+	}
+	fn := in.Parent()
+	for x := e; x != nil; x = x.Parent {
+		if x.Fn == fn {
+			e = x
+			break
+		}
+	}
+	for _, r := range *obj.Referrers() {
+		fa, ok := r.(*ssa.FieldAddr)
+		if !ok || fieldName(fa.X.Type(), fa.Field) != "TokenMetaData" || fa.Referrers() == nil {
+			continue
+		}
+		for _, r2 := range *fa.Referrers() {
+			st, ok := r2.(*ssa.Store)
+			if !ok || st.Addr != ssa.Value(fa) {
+				continue
+			}
+			ld, ok := st.Val.(*ssa.UnOp)
+			if !ok {
+				continue
+			}
+			sfa, ok := ld.X.(*ssa.FieldAddr)
+			if !ok || fieldName(sfa.X.Type(), sfa.Field) != "TokenMetaData" {
+				continue
+			}
+			org := entryOrigin(e, sfa.X, 0)
+			if org != "decoded" && org != "read:"+snd {
+				continue
+			}
+			// the store lies before every later hand-over of obj
+			dominatesAll := true
+			for _, u := range *obj.Referrers() {
+				ci, isCall := u.(ssa.CallInstruction)
+				if !isCall {
+					continue
+				}
+				ub, sb := ci.Block(), st.Block()
+				if ub == sb {
+					if indexIn(st) > indexIn(ci) {
+						dominatesAll = false
+					}
+				} else if !sb.Dominates(ub) {
+					dominatesAll = false
+				}
+			}
+			if dominatesAll {
+				return "TokenMetaData <- that of the entry " + org, true
+			}
+		}
+	}
+	return "", false
+}
+
 func marshalledObject(v ssa.Value) ssa.Value {
 	obj, _, _ := writeValue(v, 0)
 	return obj
@@ -282,8 +350,20 @@ func c08r2(c *Ctx) {
 			pos := c.P.InstrPos(s.In)
 			fnn := FuncName(s.In.Parent())
 			isFungibleHelper := strings.HasPrefix(org, "read:") && strings.TrimPrefix(org, "read:") == at
-			if isFungibleHelper {
+			if isFungibleHelper && len(ks.Parts) < 2 {
 				// read-modify-write of the destination's own fungible entry (no metadata involved): C01-R1's business
+				continue
+			}
+			if isFungibleHelper {
+				// the destination's own entry under a key with a nonce part, topped up and saved back: equal hashes do not mean
+				// equal metadata (URIs and attributes change under one hash) — the arriving metadata must be put on it
+				if why, ok := metadataTakenOver(s.Env, obj, x.snd); ok {
+					c.OK(rule, fnn, construct, pos, "the destination's entry is saved with the arriving metadata: "+why)
+				} else {
+					c.FailX(Oblig{Rule: rule, Func: fnn, Construct: construct, Pos: pos, Kind: "violation",
+						Detail:   "the entry saved under the NFT key is the destination's own current entry (" + org + ") with the balance topped up: the metadata that arrives with the tokens is dropped, the destination keeps its stale URIs / attributes and passes them on",
+						Expected: "save the arriving entry (its Value increased by the holding), or take its TokenMetaData over before saving"})
+				}
 				continue
 			}
 			if org == "decoded" || (strings.HasPrefix(org, "read:") && strings.TrimPrefix(org, "read:") == x.snd) {
